@@ -129,8 +129,9 @@ def run(ctx):
     ctx.coverage.update({"real_calls": S.calls, "calls_compared_in_coq": len(S.lits), "cubes_with_an_any_vs_all_cell": n_mixed,
                          "distribution": dict(sorted(S.dist.items()))})
     ctx.evaluations = len(S.lits) + S.oracle_only
-    res = core.run_cases("c04", ca.PRELUDE, S.lits, ca.CASE_TYPE, ca.CHECK_EXPR, ca.EXPLAIN_EXPR,
-                         shard_size=2000 if thorough else 150)
+    shard = 2000 if thorough else 150
+    S.spread(shard)
+    res = core.run_cases("c04", ca.PRELUDE, S.lits, ca.CASE_TYPE, ca.CHECK_EXPR, ca.EXPLAIN_EXPR, shard_size=shard)
     ca.conclude(ctx, "C04", pr, S, res, THEOREMS, HOW)
 
 
